@@ -43,7 +43,7 @@ def parsePV0 (t : String) : Option PV :=
   | ["u", w, v] => do pure (PV.uns (← wOfName w) (← v.toNat?))
   | ["a", w, v] => do pure (PV.arr (← wOfName w) (← parseNats "," v))
   | ["ba", v] => (parseNats "," v).map (fun l => PV.barr (l.map (· != 0)))
-  | ["s", v] => some (PV.str v)
+  | ["s", v] => some (PV.str (v.replace "\\n" "\n"))
   | ["dt", "object"] => some (PV.dtype none)
   | ["dt", w] => (wOfName w).map (fun x => PV.dtype (some x))
   | _ => none
